@@ -295,10 +295,10 @@ pub fn gen_func(
         insns.push(body(p, arch));
         if !is_root {
             // a quarter of the functions end in a tail call instead of a return. framehop
-            // recognises a tail call by what precedes the jump (x86-64: a pop; arm64: an
+            // recognises a tail call by what precedes the jump (x86-64: a pop or `add rsp`; arm64: an
             // instruction that adjusts sp), so only those shapes are generated; a signed return
             // address is authenticated by `retab`, never left signed across a plain `b`.
-            let last_is_pop = matches!(epilogue.last().map(|i| &i.eff), Some(Eff::PopOther) | Some(Eff::PopFp));
+            let last_is_pop = matches!(epilogue.last().map(|i| &i.eff), Some(Eff::PopOther) | Some(Eff::PopFp) | Some(Eff::AddSp(_)));
             let last_adjusts_sp = matches!(epilogue.last().map(|i| &i.eff), Some(Eff::LdpFpLrPost(_)) | Some(Eff::AddSp(_)));
             let tail = p.chance(1, 4)
                 && match arch {
